@@ -12,7 +12,7 @@ from .seqlib import exc_name
 PROPERTY = "C14"
 DRIVER = "TraitsVerif/Driver/Persist.lean"
 PROPS_MODULES = ["TraitsVerif.Props.C14"]
-TRANSLATORS = ["ctables"]
+TRANSLATORS = ["ctables", "copychains"]
 RULE = ("P: a HasTraits class is drawn from a menu of 25 trait declarations (Int/Str/CInt/Any, List/Dict/Set nested "
         "up to depth 3, minlen/maxlen, Instance, ReadOnly, Event, validated Property; transient and copy=ref|shallow|"
         "deep|None metadata), a history of 0-8 assignments, nested container mutations (by path) and aliasing "
@@ -100,7 +100,8 @@ def corpus():
         "P|ll v 0 d L 0 9 L 0 9 T 0 l 0;d v 0 - D 1 L 0 9 T 0 d 0|set ll l 2 l 1 i 1 l 0;add d 0 s a l 1 i 2|pickle 0",
         "P|ll v 0 d L 0 9 L 0 9 T 0 l 0;r r 0 - A u|set ll l 1 l 1 i 1;set r i 4|clone d",
         "#OBS deepcopy", "#OBS pickle 2", "#OBS clone d", "#OBS2 pickle 2", "#OBS2 deepcopy",
-        "N|clone n|d|main", "N|clone n|d|parts", "N|clone s|d|main",
+        "P|dy v 0 - T 0 q||pickle 2", "P|dy v 0 - T 0 q||copy", "P|dy v 0 - T 0 q;l v 0 d L 0 9 T 0 l 0||pickle 0;pickle 5",
+        "D|clone d", "D|deepcopy", "D|clone s", "N|clone n|d|main", "N|clone n|d|parts", "N|clone s|d|main",
         "#DEL proto-both both clone n", "#DEL proto-before color deepcopy", "#G cycle deepcopy", "#G shared pickle 4",
         # F17: a CTrait without __dict__
         '#CT {"name": "raw:CTrait(0)", "how": "copy", "via": "as_ctrait"}',
@@ -178,6 +179,11 @@ def generate(rng, tier):
         for op in COPY_OPS if tier != "quick" else ["pickle 2", "copy", "deepcopy", "clone n", "clone s", "clone d"]:
             natural = "d" if (sh[0] in ("L", "S") or sh == PL.N) else "-"
             dv = PL.default_tok(sh) if kind != "r" else "u"
+            if name == "dy":
+                dv = "q"
+                # a dynamic default that nobody reads before the copy: no history at all
+                yield "P|dy v 0 - T 0 q;l v 0 d L 0 9 T 0 l 0||%s" % op
+                yield "P|dy v 0 - T 0 q;x v 0 - A n|set x i 1|%s;%s" % (op, op)
             decl = "%s %s 0 %s %s %s" % (name, kind, natural if kind == "v" else "-", PL.shape_tok(sh), dv)
             val = PL.gen_val(rng, sh, 0, True) if kind not in ("e", "r") else "i 4"
             yield "P|%s|set %s %s|%s" % (decl, name, " ".join(val.split()), op)
@@ -191,6 +197,8 @@ def generate(rng, tier):
         for how in ct_hows:
             for via in vias:
                 yield "#CT " + json.dumps({"name": nm, "how": how, "via": via}, sort_keys=True)
+    for outer in D_OUTERS:
+        yield "D|" + outer
     for outer in N_OUTERS:
         for om in N_METAS:
             for kind in ("main", "parts"):
@@ -727,6 +735,100 @@ def run_n(case):
     return out, hits, ["N", "N:" + PL.COPY_SIG[outer if not pick else "pickle"], "N:owner-" + owner_meta]
 
 
+# --------------------------------------------------------------------------- D (the deferred traits of copy_traits)
+
+_DEF = {}
+D_OUTERS = ["clone n", "clone s", "clone d", "deepcopy"]
+
+
+def deferred_classes():
+    if _DEF:
+        return _DEF
+    from traits.api import Any, HasTraits, Instance, PrototypedFrom, Property, Str, WeakRef
+    mod = sys.modules[__name__]
+
+    class Folder(HasTraits):
+        name = Str()
+
+    class Style(HasTraits):
+        plain = Any()                  # prototype trait without copy metadata
+        shared = Any(copy="ref")       # prototype trait asking for sharing
+    ns = {"folder": WeakRef(Folder),   # copy="ref" is WeakRef's own metadata; a property underneath: deferred
+          "style": Instance(Style, copy="ref"),
+          "proto_none": PrototypedFrom("style", "plain"), "proto_ref": PrototypedFrom("style", "shared"),
+          "__module__": __name__, "__qualname__": "Doc"}
+    for nm, md in (("p_none", None), ("p_ref", "ref"), ("p_shallow", "shallow"), ("p_deep", "deep")):
+        sh = "_%s_store" % nm
+        ns[sh] = Any(transient=True)
+        ns[nm] = Property(Any, copy=md) if md else Property(Any)
+        ns["_get_" + nm], ns["_set_" + nm] = PL._accessors(sh)
+    Doc = type(HasTraits)("Doc", (HasTraits,), ns)
+    for c, n in ((Folder, "Folder"), (Style, "Style")):
+        c.__module__ = __name__
+        c.__qualname__ = n
+        setattr(mod, n, c)
+    setattr(mod, "Doc", Doc)
+    _DEF.update({"Doc": Doc, "Folder": Folder, "Style": Style})
+    return _DEF
+
+
+def run_d(case):
+    import gc
+    outer = case.split("|")[1].strip()
+    cl = deferred_classes()
+    Doc, Folder, Style = cl["Doc"], cl["Folder"], cl["Style"]
+    folder = Folder(name="inbox")
+
+    def val():
+        return [[1], [2]]
+    style = Style(plain=val(), shared=val())
+    d = Doc(folder=folder, style=style, p_none=val(), p_ref=val(), p_shallow=val(), p_deep=val())
+    d.proto_none = val()     # local overrides: the values the deferred loop copies
+    d.proto_ref = val()
+    hits = []
+    try:
+        c = PL.do_copy(d, outer)
+    except Exception as e:
+        return "copyerr " + exc_name(e), [{"signature": "copy-raises:deferred:%s" % exc_name(e),
+                                           "what": "%s of an object with deferred traits raised %s" % (outer, e)}], ["D"]
+    gc.collect()    # a copy nothing else holds (a WeakRef target that was duplicated) is gone now
+
+    def fate(nv, ov):
+        if nv is ov:
+            return "same"
+        if nv is None:
+            return "lost"
+        if nv == ov and nv[0] is ov[0]:
+            return "shallow"
+        if nv == ov:
+            return "deep"
+        return "differs"
+    metas = {"p_none": None, "p_ref": "ref", "p_shallow": "shallow", "p_deep": "deep", "proto_none": None,
+             "proto_ref": "ref"}
+    obs = [(n, fate(getattr(c, n), getattr(d, n))) for n in ("p_none", "p_ref", "p_shallow", "p_deep")]
+    wf = "same" if c.folder is folder else "lost" if c.folder is None else "deep"
+    obs.append(("weak", wf))
+    obs += [(n, fate(getattr(c, n), getattr(d, n))) for n in ("proto_none", "proto_ref")]
+    out = " ".join("%s=%s" % o for o in obs)
+    arg = {"clone n": None, "clone s": "shallow", "clone d": "deep", "deepcopy": "deep"}[outer]
+    for n, f in obs:
+        meta = "ref" if n == "weak" else metas[n]
+        want = meta if meta is not None else (arg or "ref")     # the documented rule: own metadata, else the mode
+        want = "same" if want == "ref" else want
+        if f != want:
+            hits.append({"signature": "deferred-copy-mode:%s:%s:%s-not-%s" % (PL.COPY_SIG[outer], n, f, want),
+                         "what": "%s: the value of the deferred trait %s (copy metadata %s) is %s, the documented rule "
+                                 "gives %s" % (outer, n, meta, f, want)})
+    from traits.api import TraitError
+    try:
+        c.folder = "not a folder"
+        hits.append({"signature": "deferred-not-live:%s:weak" % PL.COPY_SIG[outer],
+                     "what": "the copy's WeakRef accepted an invalid value"})
+    except TraitError:
+        pass
+    return out, hits, ["D", "D:" + PL.COPY_SIG[outer]]
+
+
 # --------------------------------------------------------------------------- #G
 
 _G = {}
@@ -862,6 +964,8 @@ def run_impl(case):
         return run_t(case)
     if case.startswith("N|"):
         return run_n(case)
+    if case.startswith("D|"):
+        return run_d(case)
     if case.startswith("#CT "):
         return run_ct(case)
     if case.startswith("#OBS "):
